@@ -1,76 +1,95 @@
 #!/usr/bin/env python3
 """Regenerate /verif/MANIFEST.json from the table below (kept valid against /root/.vp/MANIFEST.schema.json)."""
-import json, os
+import glob, json, os, re
 ROOT = os.path.dirname(os.path.dirname(os.path.abspath(__file__)))
 props = [json.loads(l) for l in open(os.path.join(ROOT, "properties.jsonl"))]
-
-CLAIMS = {
- "C04": dict(
-   text="Deductive proof (all inputs, all nestings, all container sizes) that the real _compute_arguments_dict_matching_score returns a "
-        "positive score exactly when the statement's recursive partial-match predicate holds, and a score in (0,1] then; recursion "
-        "through the function's own contract, three loops cut by invariants, termination by a rank measure. The name / instance rules "
-        "of _compute_event_comparison_score are covered by the bounded stand-in only (labelled bounded).",
-   note="Assumed: floats are mathematical reals (0.9**n never underflows); regex engine and comparison operators uninterpreted; "
-        "ComparisonExpression.compare contract assumed; values are JSON-like, acyclic, dict keys are strings; statement-silent zone "
-        "(1/True/1.0, regex against non-string) excluded by the `typed` precondition. Trusted: the pyvc encoder, z3/cvc5. Unverified: "
-        "that run_to_completion consults exactly the waiting heads and advances a head iff its score is positive.",
-   technique="contract-based deductive verification: VCs generated from the real function AST (pyvc), discharged by z3/cvc5; "
-             "bounded native contract checking as labelled stand-in and replay",
-   design_ref="DESIGN.md section 7 (C04)"),
- "C20": dict(
-   text="Deductive proof, for every list of config-id strings and every server state, that each path the real _get_rails hands to "
-        "RailsConfig.from_path (ghost trace) is the configured root or lies lexically inside it with no '..' component - on normal "
-        "and on every exceptional exit; string lemmas split between z3 (regex) and cvc5 (containment). Thread-history clauses of "
-        "chat_completion are covered by the bounded stand-in only.",
-   note="Assumed (listed in evidence): os.path.abspath yields a normalised absolute path; posixpath.join/normpath/commonprefix axioms "
-        "(A-JOIN, A-NORMPATH, A-COMMONPREFIX) for a single component; from_path / LLMRails do not modify the server globals; root != '/'. "
-        "Symlinks are outside a lexical contract. Trusted: pyvc encoder, regex-to-SMT compiler (re._parser based), z3/cvc5.",
-   technique="contract-based deductive verification (pyvc VCs from the real AST + ghost trace + hand-instantiated string lemmas; z3/cvc5); "
-             "bounded native contract checking as labelled stand-in and replay",
-   design_ref="DESIGN.md section 7 (C20)"),
- "C07": dict(
-   text="Deductive proof, for every and/or group (no bound on depth or width) and every valuation of its leaves (an uninterpreted "
-        "predicate), that the real normalize_element_groups / flatten_or_group return one `or` of `and`s of leaves (the shape the "
-        "fork/merge expansion relies on) and that the normal form is satisfied only if the original formula is (a match never "
-        "completes before its formula holds). The converse direction and the run-time head protocol (completion at exactly the "
-        "first satisfying event) are covered only by the bounded stand-in, labelled bounded.",
-   note="Assumed: groups are acyclic trees of Spec leaves and {_type, elements} dicts (wf precondition); a class is never both a Spec and "
-        "a dict (A-CLASSES); value-mode frozen-heap encoding (DESIGN.md 3.3). Unverified: the fork/merge/wait-for-heads protocol in "
-        "slide/run_to_completion; _expand_match_element/_expand_await_element/_expand_when_stmt_element emission (bounded only).",
-   technique="contract-based deductive verification (pyvc VCs from the real AST, recursion through the function's own contract, loop and "
-             "comprehension contracts, fueled recursive spec; z3) + bounded native contract checking through the real interpreter",
-   design_ref="DESIGN.md section 7 (C07)"),
+TECH = ("contract-based deductive verification: VCs generated from the real function ASTs (pyvc) against sidecar contracts, discharged by "
+        "z3/cvc5; bounded native contract checking of the real code as labelled stand-in and replay")
+TECH_B = ("contracts on the real code checked natively on enumerated/small-scope inputs (bounded stand-in of the contract-based family; "
+          "no obligation is counted as proved)")
+# proved: what the discharged obligations establish (None = nothing deductive yet);  bounded: what only the bounded native side covers
+C = {
+ "C01": (None, "input rails gating through the real LLMRails (Colang 1.0 general/passthrough/dialog, Colang 2.x guardrails library): order, stop on reject, "
+               "no LLM call after reject, rewritten text in every later prompt; multi-turn", "FakeLLM, scripted rail actions; bounds in evidence"),
+ "C02": (None, "output rails gating through the real LLMRails, multi-turn (3-5 turns), Colang 1.0 modes and Colang 2.x guardrails library: every LLM-generated "
+               "bot message passes all rails in order, rejected text never returned, later turns still checked", "FakeLLM, scripted rail actions"),
+ "C03": ("ActionDispatcher.execute_action: whatever the registered action does (unknown code that may raise any Exception at its call, in its constructor, when "
+         "awaited) only the forwarded LLMCallException escapes and the result is (r,'success') or (None,'failed')",
+         "fault injection at every action call index (singles and pairs) through the real LLMRails in both Colang versions: generate returns, reply is refusal / "
+         "internal error, next turn has all rails active", "inspect predicates, Chain/Runnable methods and logging modelled as unknown code / uninterpreted"),
+ "C04": ("_compute_arguments_dict_matching_score returns a positive score exactly when the statement's recursive partial-match predicate holds, and a score in (0,1] "
+         "then (all inputs, all nestings; recursion through its own contract, three loops by invariant, termination by rank)",
+         "name / instance / priority rules of _compute_event_comparison_score", "floats are reals; regex engine and comparison operators uninterpreted; "
+         "statement-silent zone (1/True/1.0, regex vs non-string) excluded by the `typed` precondition"),
+ "C05": (None, "competing flows through the real interpreter with every tie-break outcome enumerated (random.choice scripted) + contract monitor on "
+               "_resolve_action_conflicts: one most-specific action per loop, losers fail, identical actions shared, loops independent", "bounds in evidence"),
+ "C06": (None, "flow / action lifetimes through the real interpreter with a passive monitor on _abort_flow/_finish_flow/start requests: children stopped, exactly one "
+               "Stop per unfinished unshared action, activated flows restarted while an activator runs", "bounds in evidence"),
+ "C07": ("normalize_element_groups / flatten_or_group: for every and/or group and every valuation of the leaves the result is one `or` of `and`s of leaves and is "
+         "satisfied only if the original formula is (unbounded depth/width)",
+         "converse direction; `match <group>` completes at exactly the first satisfying event (real interpreter, all short event sequences)",
+         "groups are acyclic trees of Spec leaves; a class is never both Spec and dict; frozen-heap value mode"),
+ "C08": ("FlowState.finished_event / _create_out_event: the FlowFinished event carries return_value == the instance's `_return_value` context entry whenever "
+         "that entry exists, for every value incl. None/False/0/empty containers (what `$x = await flow` assigns)", "parameter binding / defaults / return values / private locals through the real interpreter on enumerated signatures x call forms x value types, "
+               "concurrent instances, mutable defaults", "dataclass constructors modelled from the real field lists; attribute reads on objects assumed present"),
+ "C09": (None, "after every run_to_completion on generated programs x exhaustive short histories (incl. JSON save/restore and simulated idle time): no pending internal "
+               "event, heads parked on waits, no dangling uids, dispatch index == from-scratch scan", "bounds in evidence"),
+ "C10": (None, "termination of process_events (step bound + hard timeout) and fault containment for an erroneous expression at every statement position with "
+               "unrelated reactor flows", "bounds in evidence"),
+ "C11": (None, "save/restore at every cut point and simulated idle time on programs holding sets, nested containers, flow/action/event references: same outgoing events, "
+               "shared references stay shared", "bounds in evidence"),
+ "C12": (None, "closure predicate (labels, fork/merge, scopes, primitives only; 1.0 offsets in range) on all 210 shipped .co files and enumerated/random programs "
+               "after the real parser/expander", "bounds in evidence"),
+ "C13": ("format_colang_parsing_error_message raises nothing for an arbitrary exception object and content; the read-and-parse `with` block of "
+         "_parse_colang_files_recursively lets only ColangParsingError (or open's OSError) escape whatever parse_colang_file raises",
+         "layout invariance (blank lines, trailing whitespace, comments, indentation scaling) and the error path end-to-end on mutated files", 
+         "parsers themselves (Lark grammar, hand-written 1.0 parser) are unknown code; hang-freedom only by timeout in the bounded part"),
+ "C14": (None, "compute_next_steps on generated structured 1.0 flows vs a reference structured-program reading; decision is a function of the history alone", "bounds in evidence"),
+ "C15": (None, "conversation isolation on a shared LLMRails instance: sequential interleavings, cache-key injectivity (exhaustive small lists), llm_params sequential and "
+               "concurrent (asyncio tasks with gated latencies)", "bounds in evidence"),
+ "C16": (None, "all 16 subsets of rail categories x verdict combinations x texts through the real generate, with log oracle; multi-turn on one instance and with state", "bounds in evidence"),
+ "C17": (None, "hostile LLM outputs at every call position through the real LLMRails in 8 Colang 1.0 modes and 3 Colang 2.x set-ups: generate never raises, well-formed "
+               "message, template/variable syntax returned literally; totality of the post-LLM string helpers and output parsers", "bounds in evidence"),
+ "C18": (None, "StreamingHandler on all 2^(n-1) chunkings of short texts for every prefix/suffix/stop configuration family, three ways of driving it", "bounds in evidence"),
+ "C19": (None, "cache_embeddings / EmbeddingsCache / batching with a gated fake model: own vector per text, input order, completion of concurrent requests", "bounds in evidence"),
+ "C20": ("every path the real _get_rails hands to RailsConfig.from_path (ghost trace) is the configured root or lies lexically inside it with no '..' component, on "
+         "normal and exceptional exits, for every list of config ids", "thread-history clauses of chat_completion (stored thread ++ new messages ++ reply; threads never mix)",
+         "os.path.abspath/join/normpath/commonprefix axioms (A-*), from_path/LLMRails do not modify the server globals, root != '/'; symlinks outside a lexical contract"),
 }
-NA_DEFAULT = "check not built yet (build in progress; see DESIGN.md section 7 for the plan)"
-NA = {}
-
+def has_native(i): return any(re.search(r"^def native_checks|^NATIVE\s*=", open(f).read(), re.M) for f in glob.glob(os.path.join(ROOT, "contracts", i + "_*.py")))
+def has_contract(i): return any(re.search(r"^contract\(", open(f).read(), re.M) and "verify=False" not in open(f).read() or len(re.findall(r"^contract\(", open(f).read(), re.M)) > open(f).read().count("verify=False") for f in glob.glob(os.path.join(ROOT, "contracts", i + "_*.py")) if re.search(r"^contract\(", open(f).read(), re.M))
 m = {"version": 1,
      "setup_cmd": "python3-vt -m compileall -q pyvc native contracts >/dev/null; python3-vt -m pyvc.selftest",
      "hooks": {"guard": "NEMO_GUARDRAILS_VERIF",
                "enable": "no hooks: contracts are sidecar files under /verif/contracts; /repo is read as text by the prover and imported unmodified by the native harness",
                "baseline_off_cmd": "cd /repo && /venv/bin/python -m pytest -ra -q -p no:cacheprovider --timeout=900 --continue-on-collection-errors",
                "source_commits": [], "add_only": True},
-     "engines": [{"name": "pyvc", "path": "pyvc/", "serves_properties": sorted(CLAIMS),
-                  "kind_free_text": "home-made deductive verifier for a Python subset: symbolic execution of the real function ASTs into "
-                                    "verification conditions against sidecar contracts; z3 + cvc5"},
-                 {"name": "native", "path": "native/", "serves_properties": sorted(CLAIMS),
-                  "kind_free_text": "runs the real functions under /venv/bin/python against the same sidecar contracts: bounded stand-in and counterexample replay"}],
-     "checks": [], "notes": "See DESIGN.md. Exit codes of ./check: 0 ok, 1 VIOLATION, 2 undecided, 3 checker error.",
-     "not_applicable": []}
+     "engines": [], "checks": [], "not_applicable": [],
+     "notes": "See DESIGN.md. Exit codes of ./check: 0 ok (KNOWN-FINDING lines for entries of known_findings.json), 1 VIOLATION, 2 undecided, 3 checker error."}
+READY = set("C01 C02 C03 C04 C05 C06 C07 C08 C09 C10 C11 C12 C13 C14 C15 C16 C17 C18 C19 C20".split())
+claimed = []
 for p in props:
     i = p["id"]
-    if i in CLAIMS:
-        c = CLAIMS[i]
+    files = glob.glob(os.path.join(ROOT, "contracts", i + "_*.py"))
+    if i in C and files and i in READY:
+        proved, bounded, assumed = C[i]
+        ded = proved is not None
+        text = (("PROVED (all inputs, no bound): " + proved + ". ") if ded else "No obligation is proved for this property yet; ") + \
+               "BOUNDED (real code against the same contracts, never counted as proved): " + bounded + "."
         m["checks"].append({"property_id": i, "quick_cmd": "./check %s --tier quick" % i, "thorough_cmd": "./check %s --tier thorough" % i,
-                            "evidence_file": "evidence/%s.json" % i, "replay_cmd_template": "./check %s --replay {path}" % i, "engine": "pyvc",
-                            "level_claimed": {"category": "proof", "text": c["text"], "design_ref": c["design_ref"]},
-                            "level_note": c["note"], "technique": c["technique"]})
+                            "evidence_file": "evidence/%s.json" % i, "replay_cmd_template": "./check %s --replay {path}" % i, "engine": "pyvc" if ded else "native",
+                            "level_claimed": {"category": "proof" if ded else "exploration", "text": text, "design_ref": "DESIGN.md section 7 (%s)" % i},
+                            "level_note": "Assumed / trusted: " + assumed + ". Trusted: the pyvc encoder, z3/cvc5, CPython's ast. The step from function/flow contracts to whole "
+                                          "conversations stays unverified (DESIGN.md section 1).",
+                            "technique": TECH if ded else TECH_B})
+        claimed.append(i)
     else:
-        m["not_applicable"].append({"property_id": i, "reason": NA.get(i, NA_DEFAULT)})
+        m["not_applicable"].append({"property_id": i, "reason": "check not built yet (build in progress; see DESIGN.md section 7 for the plan)"})
+m["engines"] = [{"name": "pyvc", "path": "pyvc/", "serves_properties": [c["property_id"] for c in m["checks"] if c["engine"] == "pyvc"],
+                 "kind_free_text": "home-made deductive verifier for a Python subset: symbolic execution of the real function ASTs into verification conditions against sidecar contracts; z3 + cvc5"},
+                {"name": "native", "path": "native/", "serves_properties": claimed,
+                 "kind_free_text": "runs the real functions / interpreter / LLMRails under /venv/bin/python against the same sidecar contracts: bounded stand-in and counterexample replay"}]
 json.dump(m, open(os.path.join(ROOT, "MANIFEST.json"), "w"), indent=1)
-try:
-    import jsonschema
-    jsonschema.validate(m, json.load(open("/root/.vp/MANIFEST.schema.json")))
-    print("MANIFEST ok: %d checks, %d not_applicable" % (len(m["checks"]), len(m["not_applicable"])))
-except ImportError:
-    print("written (jsonschema not available for validation)")
+import jsonschema
+jsonschema.validate(m, json.load(open("/root/.vp/MANIFEST.schema.json")))
+print("MANIFEST ok: %d checks (%s), %d not_applicable" % (len(m["checks"]), " ".join(claimed), len(m["not_applicable"])))
